@@ -1,5 +1,6 @@
 (* C19 - Triangles cover their interior and polylines are the union of their segments.
-   Statements only; every proof is `exact <lemma>` from Proofs/Polyline.v / Proofs/Triangle.v. *)
+   Statements only; the proofs are `exact <lemma>` from Proofs/Polyline.v / Proofs/Triangle.v / Proofs/Tristyled.v or a
+   two-line composition of such lemmas. *)
 From EG Require Import Base.Prelude Model.Geometry Model.Line Model.Style Model.Polyline Model.Triangle Model.Tristyled
   Proofs.Geometry Proofs.TriLine Proofs.Polyline Proofs.Triangle Proofs.Tristyled.
 From Coq Require Import Sorting.Sorted.
@@ -136,6 +137,26 @@ Theorem C19_tri_points_spec : forall t q, tri_ok t ->
   (In q (tri_points t) <->
    exists a b, In (P a (py q)) (tri_fill_edges t) /\ In (P b (py q)) (tri_fill_edges t) /\ a <= px q <= b).
 Proof. exact tri_points_spec. Qed.
+
+(* The same clauses observed at Styled<Triangle>::pixels() / draw() with a fill and stroke width 0 (any alignment, stroke colour
+   present or not; Model/Tristyled.v: the step-by-step StyledPixelsIterator over the un-fused scanline iterator, and draw_styled):
+   pixels() yields exactly Triangle::points(), in the same order, in the fill colour (nothing without a fill colour), and the
+   fill_solid calls of draw() write the same list.  Clauses 1-5 above therefore hold verbatim for the styled fill.
+   (colored (Some c) ps = map (fun p => (p, c)) ps, colored None ps = [];  fill_writes (r, c) = c at every point of r.) *)
+Theorem C19_tri_styled_fill_is_points : forall st t,
+  tri_styled_pixels_w0 st t = colored (fill_color st) (tri_points t).
+Proof. exact tri_styled_pixels_w0_spec. Qed.
+
+Theorem C19_tri_styled_fill_draw_is_points : forall st t, tri_ok t ->
+  flat_map fill_writes (tri_draw_styled_w0 st t) = colored (fill_color st) (tri_points t).
+Proof. intros st t Hok. rewrite tri_w0_pixels_draw by assumption. apply tri_styled_pixels_w0_spec. Qed.
+
+Theorem C19_tri_styled_fill_covers_interior : forall st t q c, tri_ok t -> area_doubled t <> 0 -> fill_color st = Some c ->
+  in_closed_tri t q -> In (q, c) (tri_styled_pixels_w0 st t).
+Proof.
+  intros st t q c Hok Ha Hc Hin. rewrite tri_styled_pixels_w0_spec, Hc. cbn [colored].
+  apply in_map_iff. exists q. split; [reflexivity|]. apply covers_interior_nondeg; assumption.
+Qed.
 
 (* what tri_ok is for: inside it (and for the points inside the bounding box, the only ones for which contains() gets that
    far) every product and partial sum of area_doubled, of the barycentric s and t, and s + t fits an i32 (fits_i32) *)
